@@ -45,7 +45,7 @@ class Model:
         if self.isseq(arg):
             js = self.seq(arg)["jobs"]
             return [js[-1]] if js else []
-        if isinstance(arg, (list, tuple, set)):
+        if isinstance(arg, (list, tuple, set, frozenset)):
             out = []
             for x in arg:
                 out += self.flat_req(x)
@@ -101,7 +101,15 @@ class Model:
         self.members.discard(j)
 
 
+def _isgen(y):
+    return isinstance(y, tuple) and len(y) == 2 and y[0] == "gen"
+
+
 def describe(x):
+    if _isgen(x):
+        return "(x for x in %s)" % describe(list(x[1]))
+    if isinstance(x, frozenset):
+        return "frozenset(%s)" % describe(list(x))
     if isinstance(x, Sequence):
         return "Seq%s" % [str(j) for j in x.jobs]
     if isinstance(x, (list, tuple, set)):
@@ -133,8 +141,11 @@ def program_harness(name, nstmts, kinds, level="full"):
         model.req[Z] = set()
         model.req[NS] = set()
 
+        shared_set = {c}            # one set object, possibly handed to several calls
+
         def req_args():
-            t = [None, a, b, [a, b], (a, [b]), {c}, [None, [c], d], [[]], Z, [NS, Z]]
+            t = [None, a, b, [a, b], (a, [b]), shared_set, [None, [c], d], [[]], Z, [NS, Z], frozenset([d]),
+                 ("gen", (a, b))]
             for q in ("q0", "q1"):
                 if var[q] is not None:
                     t.append(var[q])
@@ -142,8 +153,8 @@ def program_harness(name, nstmts, kinds, level="full"):
                 t.append([var["q0"], a])
             t.append(fresh_empty())
             if level == "mini":
-                return [None, b, [None, [c], d], Z] + t[10:]
-            return t if full_tables else t[:2] + t[3:4] + t[6:7] + t[8:]
+                return [None, a, b, [None, [c], d], Z] + t[12:]
+            return t if full_tables else t[:2] + t[3:4] + t[5:7] + t[8:]
 
         def seq_items():
             t = [(), (a,), (a, b), (a, None, b), (c, d), (b, a), (None,)]
@@ -206,10 +217,10 @@ def program_harness(name, nstmts, kinds, level="full"):
                 prog.append("%s.requires(%s, remove=%s)" % (j, ", ".join(describe(x) for x in al), rem))
 
                 def call(j=j, al=al, rem=rem):
-                    j.requires(*al, remove=rem)
+                    j.requires(*[(x for x in y[1]) if _isgen(y) else y for y in al], remove=rem)
 
                 def mcall(j=j, al=al, rem=rem):
-                    model.requires(j, al, rem)
+                    model.requires(j, [list(y[1]) if _isgen(y) else y for y in al], rem)
             elif kind == "seqreq":
                 defined = [q for q in ("q0", "q1") if var[q] is not None]
                 if not defined:
@@ -254,7 +265,7 @@ def program_harness(name, nstmts, kinds, level="full"):
                 def mcall(j=j):
                     model.remove(j)
             elif kind == "newjob":
-                rtab = [None, a, [a, b]] + [var[q] for q in ("q0", "q1") if var[q] is not None]
+                rtab = [None, a, [a, b], shared_set] + [var[q] for q in ("q0", "q1") if var[q] is not None]
                 r = rtab[api.choice("required" + tag, len(rtab))]
                 ins = api.flag("sched" + tag)
                 prog.append("e%s = Job(required=%s, scheduler=%s)" % (tag, describe(r), "S" if ins else None))
